@@ -248,3 +248,27 @@ Example ex_none_functions :
   merge_dispatch ex_a [ex_c] Union Inter None (Some prefer_self)
   = ROk (mkT [10]%Z [110;120;130]%Z [[1;6;6]]%Z None None 0%Z).
 Proof. repeat split; vm_compute; reflexivity. Qed.
+
+(* ---- tie to the source: the merge orders and the default metadata policy against the definitions
+   tools/py2v regenerates from Table._union_id_order / Table._intersect_id_order (biom/table.py,
+   Gen/HelpersGen.v) and util.prefer_self (Gen/UtilGen.v) on every check.  The source builds a
+   dictionary id -> index; the model lists the ids in index order. *)
+From BiomV Require Gen.Prelude.
+From BiomV Require Import Gen.HelpersGen Gen.UtilGen Proofs.GenBridgeHelpersProofs.
+Theorem union_order_is_source : forall a b,
+  map fst (union_id_order a b) = union_order a b /\
+  map snd (union_id_order a b) = seq 0 (length (union_order a b)).
+Proof. exact union_order_bridge. Qed.
+Print Assumptions union_order_is_source.
+
+(* partial: an id repeated in `a` is numbered once by the source and listed twice by the filter
+   (GenBridgeHelpersProofs.intersect_order_dup_differs); ids of a well-formed table are distinct *)
+Theorem intersect_order_is_source_partial : forall a b, NoDup a ->
+  map fst (intersect_id_order a b) = intersect_order a b /\
+  map snd (intersect_id_order a b) = seq 0 (length (intersect_order a b)).
+Proof. exact intersect_order_bridge_partial. Qed.
+Print Assumptions intersect_order_is_source_partial.
+
+Theorem prefer_self_is_source : forall x y, prefer_self x y = prefer_self_gen x y.
+Proof. exact prefer_self_bridge. Qed.
+Print Assumptions prefer_self_is_source.
